@@ -3,6 +3,7 @@ package main
 import (
 	"fmt"
 	"math/rand"
+	"strings"
 )
 
 // search-property streams: (source, text) pairs run through Compile + Run
@@ -65,7 +66,10 @@ func init() {
 		cfg.Transforms = true
 		cfg.Amounts = true
 		cfg.MaxDepth = 2
-		return searchCases(r, st, sizes(tier, 1500, 30000), cfg, 4, 14, "g")
+		cs := searchCases(r, st, sizes(tier, 1500, 30000), cfg, 4, 14, "g")
+		// names of every kind in the with list: named loops (table-valued), subroutines, global patterns
+		cfg.NamedLoops = true
+		return append(cs, withNameCases(r, st, sizes(tier, 400, 8000))...)
 	}
 	propGens["C09"] = func(r *rand.Rand, tier string, st *Stats) []Case {
 		cfg := core
@@ -76,4 +80,49 @@ func init() {
 		cfg.MultiCmd = true
 		return searchCases(r, st, sizes(tier, 2000, 40000), cfg, 5, 10, "g")
 	}
+}
+
+// withNameCases: replace commands whose with list names something that is not a string capture —
+// a named loop (a table at run time), an inline subroutine, a global pattern, a name bound only on
+// some paths — next to ordinary captures and built-ins.
+func withNameCases(r *rand.Rand, st *Stats, n int) []Case {
+	bodies := []struct{ body, names string }{
+		{"at least 1 (digit = d) named parts", "parts d"},
+		{"at least 0 ((letter = l) digit) named ps ';'", "ps l"},
+		{"{'a' maybe q 'b'} = q", "q"},
+		{"(at least 1 letter = w) named ws ' '", "ws w"},
+		{"at least 1 (at least 1 (digit = d) named inner ',') named outer", "outer inner d"},
+		{"('a' = x) or ('b' = y)", "x y"},
+		{"maybe ('a' = x) 'b'", "x"},
+	}
+	texts := []string{"ab 123 cd 45", "a1b2; c3;", "aabb ab b", "foo bar baz ", "12,3,;4,", "ab ba b", ""}
+	out := []Case{}
+	for i := 0; i < n; i++ {
+		b := bodies[r.Intn(len(bodies))]
+		names := strings.Fields(b.names)
+		items := []string{}
+		for j := 0; j < 1+r.Intn(4); j++ {
+			switch r.Intn(4) {
+			case 0:
+				items = append(items, quote(string([]byte{byte('<' + r.Intn(3))})))
+			case 1:
+				items = append(items, []string{"value", "matchNumber", "startOffset"}[r.Intn(3)])
+			default:
+				items = append(items, names[r.Intn(len(names))])
+			}
+		}
+		src := ""
+		if r.Intn(4) == 0 {
+			src = "set g to pattern 'a'\n"
+			items = append(items, "g")
+		}
+		src += "replace all " + b.body + " with " + strings.Join(items, " ")
+		text := texts[r.Intn(len(texts))]
+		if r.Intn(3) == 0 {
+			text = text + texts[r.Intn(len(texts))]
+		}
+		st.Features["with-name-template"]++
+		out = append(out, Case{ID: fmt.Sprintf("w%d", i), Op: "run", Fields: []string{hx(src), hx(text)}, Meta: map[string]string{}})
+	}
+	return out
 }
